@@ -438,3 +438,29 @@ Example exB_result :
   d_height (n_disk (run ex_exec (ex_g 5) (exB_above ++ [evh exB 0 1]))) = 115 /\
   length (n_log (run ex_exec (ex_g 5) (exB_above ++ [evh exB 0 1]))) = 111%nat.
 Proof. vm_compute. repeat split; reflexivity. Qed.
+
+(* ---- the P2P store loops TRANSLATED FROM THE SOURCE (Check/GoLiteP2PIngress.v, regenerated on every run) ----------
+   ONE ITERATION of Manager.HeaderStoreRetrieveLoop / DataStoreRetrieveLoop, read off the code's own observation
+   (Proofs/GoLiteP2PIngressRefine.code_step: the heights are those of the range the code asked its reader for, each
+   handed over iff the translated walk body sends it, tagged with the DA height it was given; the cursor is the one
+   the iteration hands to the next), IS the step of the model the p2p theorems above are stated over — for every
+   junk filter, cursor and signal; and so is every run over a sequence of signals. *)
+From Verif Require Check.GoLiteP2PIngress Proofs.GoLiteP2PIngressRefine.
+Theorem C02_translated_p2p_step_is_loop_step_full : forall (accept : N -> bool) (cur : N) (s : P2PIngress.psignal),
+  GoLiteP2PIngressRefine.code_step true accept cur s = P2PIngress.loop_step accept cur s /\
+  GoLiteP2PIngressRefine.code_step false (fun _ => true) cur s = P2PIngress.loop_step (fun _ => true) cur s.
+Proof. exact GoLiteP2PIngressRefine.code_step_is_loop_step. Qed.
+Print Assumptions C02_translated_p2p_step_is_loop_step_full.
+
+Theorem C02_translated_p2p_run_is_loop_run_full : forall (accept : N -> bool) (sigs : list P2PIngress.psignal) (cur : N),
+  GoLiteP2PIngressRefine.code_run true accept cur sigs = P2PIngress.loop_run accept cur sigs /\
+  GoLiteP2PIngressRefine.code_run false (fun _ => true) cur sigs = P2PIngress.loop_run (fun _ => true) cur sigs.
+Proof. exact GoLiteP2PIngressRefine.code_run_is_loop_run. Qed.
+Print Assumptions C02_translated_p2p_run_is_loop_run_full.
+
+(* a range of the P2P store that cannot be read: the translated iteration hands nothing over and keeps its cursor *)
+Theorem C02_translated_p2p_failed_read_keeps_cursor_full : forall hdr accept cur s,
+  (cur <? P2PIngress.ps_store s) = true -> P2PIngress.gap_hit cur s = true ->
+  GoLiteP2PIngressRefine.code_step hdr accept cur s = ([], cur).
+Proof. exact GoLiteP2PIngressRefine.failed_read_keeps_cursor. Qed.
+Print Assumptions C02_translated_p2p_failed_read_keeps_cursor_full.
